@@ -108,6 +108,31 @@ def case_ref(case):
     return {"v": v[:6], "nt": n, "n": n, "obs": worst}
 
 
+HIST_OPS = [
+    {"ref": [47.3, 11.5], "pt": [700.0, -300.0]},
+    {"ref": [-33.7, 151.25], "pt": [700.0, -300.0]},
+    {"ref": [47.3, 11.5], "pt": [-4000.0, 2500.0]},
+    {"ref": [0.0, 0.0], "pt": [10.0, 10.0]},
+    {"ref": [60.0, -179.99], "arr": True},
+]
+
+
+def hist_op(i):
+    from bldfm.config_parser import latlon_to_xy, parse_config_dict
+    from bldfm.plotting._geo import xy_to_latlon
+
+    op = HIST_OPS[i]
+    rlat, rlon = op["ref"]
+    if op.get("arr"):
+        la, lo = xy_to_latlon(np.arange(-2000.0, 2001.0, 1000.0), np.arange(2000.0, -2001.0, -1000.0), rlat, rlon)
+        return (np.asarray(la), np.asarray(lo))
+    x, y = op["pt"]
+    la, lo = xy_to_latlon(x, y, rlat, rlon)
+    back = latlon_to_xy(float(la), float(lo), rlat, rlon)
+    cfg = parse_config_dict({"domain": {"nx": 4, "ny": 4, "xmax": 40.0, "ymax": 40.0, "nz": 2, "ref_lat": rlat, "ref_lon": rlon}, "towers": [{"name": "t", "lat": float(la), "lon": float(lo), "z_m": 3.0}], "met": {"ustar": 0.3}})
+    return (float(la), float(lo), back, (cfg.towers[0].x, cfg.towers[0].y))
+
+
 def run(ctx):
     dists = (10.0, 50.0, 500.0, 5000.0) if ctx.tier == "quick" else (1.0, 10.0, 50.0, 500.0, 2000.0, 5000.0)
     naz = 24 if ctx.tier == "quick" else 72
@@ -116,3 +141,6 @@ def run(ctx):
     res = ctx.run_cases(case_ref, cases, sub="geolocation")
     for k in ("roundtrip_m", "dist_rel", "bearing_deg"):
         ctx.cov["worst_" + k] = max(r.get("obs", {}).get(k, 0) for r in res)
+    from vf import histories
+
+    histories.run(ctx, __name__, 2 if ctx.tier == "quick" else 3)
